@@ -268,6 +268,7 @@ type enumCell struct {
 	Pending int    `json:"pending"` // -1 absent
 	Type    string `json:"type"`
 	By      int    `json:"by"`
+	Odd     bool   `json:"odd_accounts,omitempty"` // the four accounts are X, X||Y1, X||Y2, X||00 (sim.OddAccounts)
 }
 
 func c10cell(cell enumCell, c *chain.Chain) *Viol {
@@ -315,9 +316,20 @@ func buildEnumChain(roles [4]int, pending int) (*chain.Chain, error) {
 
 // RunC10Enum is the bounded-exhaustive enumeration: all 4^4 role assignments over 4
 // accounts x pending owner in {absent, each account} x 18 types x 4 submitters.
-func RunC10Enum(t *testing.T) {
+func RunC10Enum(t *testing.T) { runC10Enum(t, false) }
+
+// RunC10EnumOdd: the same enumeration over four accounts whose addresses have 20, 32, 32 and 21 bytes and agree in
+// their first 20 (what an interchain or derived account next to an ordinary one looks like): holding a role means
+// being that very account.
+func RunC10EnumOdd(t *testing.T) { runC10Enum(t, true) }
+
+func runC10Enum(t *testing.T, odd bool) {
 	st := newStats("C10")
 	st.ID = "C10-enum"
+	if odd {
+		st.ID = "C10-enum-odd"
+		sim.OddAccounts = true
+	}
 	defer st.Write()
 	n := 0
 	for a := 0; a < 256; a++ {
@@ -329,7 +341,7 @@ func RunC10Enum(t *testing.T) {
 			}
 			for _, typ := range sim.AdminTypes {
 				for by := 0; by < 4; by++ {
-					cell := enumCell{Roles: roles, Pending: pending, Type: typ, By: by}
+					cell := enumCell{Roles: roles, Pending: pending, Type: typ, By: by, Odd: odd}
 					if v := c10cell(cell, c); v != nil {
 						saveFail("C10", "c10-enum", cell, v)
 						t.Fatalf("VIOLATION %s", v)
@@ -346,7 +358,7 @@ func RunC10Enum(t *testing.T) {
 						cl = "authorised"
 					}
 					cc := cell
-					st.Case(fmt.Sprintf("%v|%d|%s|%d", roles, pending, typ, by), func() any { return cc }, cl)
+					st.Case(fmt.Sprintf("%v|%d|%s|%d|%v", roles, pending, typ, by, odd), func() any { return cc }, cl)
 				}
 			}
 		}
@@ -359,6 +371,7 @@ func init() {
 	replayers["c10-enum"] = func(raw []byte) *Viol {
 		var cell enumCell
 		mustJSON(raw, &cell)
+		sim.OddAccounts = cell.Odd
 		c, err := buildEnumChain(cell.Roles, cell.Pending)
 		if err != nil {
 			return nil
